@@ -95,7 +95,7 @@ def check(spec):
         given = dict(idmap)      # one dict object, passed to every call (as a caller adding the same fragment repeatedly does)
         try:
             for _ in range(spec.get('times', 1)):
-                a.extend(b, structure_index_map=given, **kw)
+                a.extend(b, structure_index_map=given, **kw, **({'verbose': True} if spec.get('verbose') else {}))
         except Exception as e:
             return "extend raised %r" % (e,)
         if given != idmap:
@@ -201,6 +201,16 @@ def run(rec, tier, seed):
                     rec.case(repr(spec), group='kinds')
                     if msg:
                         rec.fail('extend', 'extend', "%s on %r" % (msg, spec), spec, 'C11/extend/post')
+    # progress printing switched on (with the default type merging it takes another branch)
+    for n in (2, 4):
+        a = dict(n=n, seed=0, terms=True, coeffs=True, extra=True, cell='ortho')
+        b = dict(n=3, seed=3, terms=True, coeffs=True, extra=True, cell=None)
+        for m in ({}, {0: 1}, {2: 0, 0: 1}):
+            spec = dict(a=a, b=b, idmap={str(k): v for k, v in m.items()}, times=1, verbose=True)
+            msg = check(spec)
+            rec.case(repr(spec), group='verbose')
+            if msg:
+                rec.fail('extend', 'extend', "%s on %r" % (msg, spec), spec, 'C11/extend/post')
     # the other structure lists the same terms from their other end (an existing term on the same atoms is superseded whichever way it is listed)
     for n in (3, 4, 5):
         for c in (True, False):
